@@ -50,6 +50,23 @@ def _quiet() -> None:
     logging.disable(logging.CRITICAL)
 
 
+def _child_init() -> None:
+    """Pool initializer: a shard must not outlive the runner (a killed or
+    timed-out runner would otherwise leave shards burning CPU).  A watchdog
+    thread polls the parent pid; PR_SET_PDEATHSIG is NOT used because it
+    fires when the forking *thread* (Pool's worker handler) exits, which
+    kills idle pool workers holding the queue lock and hangs terminate()."""
+    import threading
+    ppid = os.getppid()
+
+    def watch() -> None:
+        while True:
+            time.sleep(2.0)
+            if os.getppid() != ppid:
+                os._exit(3)
+    threading.Thread(target=watch, daemon=True).start()
+
+
 def _load(prop: str):
     return importlib.import_module(f'vt.props.{prop.lower()}')
 
@@ -123,7 +140,7 @@ def main(argv=None) -> int:
         with open(a.replay) as f:
             doc = json.load(f)
         case = doc['case'] if isinstance(doc, dict) and 'case' in doc else doc
-        with ctxm.Pool(1) as pool:
+        with ctxm.Pool(1, initializer=_child_init) as pool:
             r = pool.map(_replay_entry, [(prop, case)])[0]
         if not r['ok']:
             print(r['tb'])
@@ -170,7 +187,8 @@ def main(argv=None) -> int:
         (prop, tier, seed, s, nshards, budget, scale, known)
         for s in range(nshards)
     ]
-    with ctxm.Pool(min(16, max(nshards, 1)), maxtasksperchild=1) as pool:
+    with ctxm.Pool(min(16, max(nshards, 1)), initializer=_child_init,
+                   maxtasksperchild=1) as pool:
         rep_async = None
         if replay_files:
             cases = []
